@@ -132,3 +132,61 @@ pub fn upd(t: &mut Toks) -> String {
         outs.join(" # ")
     })
 }
+
+/// case: evict <nother>
+///   the REAL update feed of table tests is handed candidate maps directly (the arrival order
+///   a delayed local broadcast_changes task produces): key 0 with causal length 3; flush;
+///   <nother> other keys; flush; key 0 with causal length 2 (an older state); flush.
+/// obs: the notifications for key 0, in order
+pub fn evict(t: &mut Toks) -> String {
+    use klukai_types::pubsub::{pack_columns, MatchCandidates};
+    use klukai_types::updates::Handle;
+    let rt = tokio::runtime::Builder::new_multi_thread().worker_threads(4).enable_all().build().unwrap();
+    let nother = t.i64();
+    vh::MANUAL.store(true, SeqCst);
+    let out = rt.block_on(async move {
+        let a = c11::new_node().await;
+        let tn = c11::TNAME[0];
+        let (h, created) = a.kit.agent.updates_manager()
+            .get_or_insert(tn, &a.kit.agent.schema().read(), a.kit.agent.pool(), a.kit.tripwire.clone()).expect("listener");
+        let mut rx = created.expect("fresh listener").evt_rx;
+        tokio::time::sleep(Duration::from_millis(300)).await;
+        let key = |i: i64| pack_columns(&[klukai_types::change::SqliteValue::Integer(i)]).unwrap();
+        let send = |pairs: Vec<(i64, i64)>| {
+            let mut m: MatchCandidates = Default::default();
+            let e = m.entry(tn.into()).or_default();
+            for (k, cl) in pairs { e.insert(key(k), cl); }
+            m
+        };
+        let tx = h.changes_tx();
+        // the listener reads its feed all the time (a full channel would block the batching loop)
+        let notes = std::sync::Arc::new(std::sync::Mutex::new(Vec::<String>::new()));
+        let reader = tokio::spawn({ let notes = notes.clone(); async move {
+            while let Some(e) = rx.recv().await {
+                if let NotifyEvent::Notify(ty, pk) = e {
+                    if pk.first().and_then(|x| x.as_integer().copied()) == Some(0) {
+                        notes.lock().unwrap().push(match ty { ChangeType::Delete => "D".to_string(), _ => "U".to_string() });
+                    }
+                }
+            }
+        }});
+        tx.send(send(vec![(0, 3)])).await.unwrap();
+        tokio::time::sleep(Duration::from_millis(50)).await;
+        let ok1 = flush(1).await;
+        for chunk in (1..=nother).collect::<Vec<_>>().chunks(500) {
+            tx.send(send(chunk.iter().map(|k| (*k, 1)).collect())).await.unwrap();
+        }
+        tokio::time::sleep(Duration::from_millis(100)).await;
+        let ok2 = flush(1).await;
+        tx.send(send(vec![(0, 2)])).await.unwrap();
+        tokio::time::sleep(Duration::from_millis(50)).await;
+        let ok3 = flush(1).await;
+        tokio::time::sleep(Duration::from_millis(100)).await;
+        reader.abort();
+        let notes = notes.lock().unwrap().clone();
+        format!("key0={} flushed={}", notes.join(","), if ok1 && ok2 && ok3 { 1 } else { 0 })
+    });
+    vh::MANUAL.store(false, SeqCst);
+    rt.shutdown_background();
+    out
+}
